@@ -71,3 +71,23 @@ Fixpoint collect (t : table) (fuel : nat) (s : istate) : list item :=
   end.
 
 Definition parse_all (t : table) (data : list N) : list item := collect t (S (length data)) (data, false).
+
+(* ---- the public payload constructors `XPayload::new(data) -> Result<X, Error>` (a second way to obtain a view, besides the stream
+   iterators): fixed-length payloads (macro template: accept exactly len bytes) and the
+   variable-length McGroupStatusAnsPayload::new (status byte + 5 bytes per group reported in AnsGroupMask) *)
+Definition fixed_new (len : nat) (data : list N) : option (list N) :=
+  if Nat.eqb (length data) len then Some data else None.
+Definition mcstatus_new (data : list N) : option (list N) :=
+  match data with
+  | [] => None
+  | b0 :: _ => let need := (1 + popcount4 4 (N.land b0 0x0f) * 5)%nat in
+               if Nat.ltb (length data) need then None else Some (firstn need data)
+  end.
+(* accessors of the McGroupStatusAns view: AnsGroupMask, NbTotalGroups, the items (group id, 4 address bytes) *)
+Definition mcstatus_mask (v : list N) : N := N.land (nthN v 0) 0x0f.
+Definition mcstatus_total (v : list N) : N := N.land (N.shiftr (nthN v 0) 4) 7.
+Fixpoint mcstatus_items (fuel : nat) (d : list N) : list (list N) :=
+  match fuel with
+  | O => []
+  | S k => if Nat.ltb (length d) 5 then [] else firstn 5 d :: mcstatus_items k (skipn 5 d)
+  end.
